@@ -694,8 +694,13 @@ func (fc *FnCtx) specLoc(st *State, e SExpr, bind map[string]Val) (Val, *loc, bo
 			}
 			l = *bl
 		}
-		l.path = append(append([]string{}, l.path...), x.Sel)
 		root := fc.load(st, loc{kind: l.kind, obj: l.obj, v: l.v, typ: l.typ})
+		// promoted field: descend through the embedded struct that declares it
+		if parent, ok := getPath(fc, root, l.path, "m").(VStruct); ok {
+			l.path = append(append([]string{}, l.path...), promotedPath(parent.Typ, x.Sel)...)
+		} else {
+			l.path = append(append([]string{}, l.path...), x.Sel)
+		}
 		cur := getPath(fc, root, l.path, "m")
 		// type of the field
 		var ft types.Type
